@@ -249,6 +249,7 @@ func c01(c *ctx) {
 	defer c01Wedge(c)
 	defer c01Bounce(c)
 	defer c01ChooseInModification(c)
+	defer c01AssocResponse(c)
 	w, err := newWorld(c, sysh.Opts{UEAlloc: true, Pool: "10.250.0.0/16", EndMarker: true, ReadTimeout: 30})
 	if err != nil {
 		panic(err)
@@ -677,4 +678,78 @@ func mustParse(b []byte) message.Message {
 		panic(err)
 	}
 	return m
+}
+// c01AssocResponse: the agent's own Association Setup Request towards a configured peer is answered with a response that lacks,
+// duplicates or re-types one of its IEs (this handler runs on the goroutine that sent the request, not under the dispatcher's
+// recover). The agent must stay alive and go on serving another association.
+func c01AssocResponse(c *ctx) {
+	ts := ie.NewRecoveryTimeStamp(time.Unix(1700000000, 0))
+	type variant struct {
+		name string
+		ies  func(node *ie.IE) []*ie.IE
+	}
+	vs := []variant{
+		{"complete", func(n *ie.IE) []*ie.IE { return []*ie.IE{n, ie.NewCause(ie.CauseRequestAccepted), ts} }},
+		{"no-recovery-time-stamp", func(n *ie.IE) []*ie.IE { return []*ie.IE{n, ie.NewCause(ie.CauseRequestAccepted)} }},
+		{"no-node-id", func(n *ie.IE) []*ie.IE { return []*ie.IE{ie.NewCause(ie.CauseRequestAccepted), ts} }},
+		{"no-cause", func(n *ie.IE) []*ie.IE { return []*ie.IE{n, ts} }},
+		{"empty", func(n *ie.IE) []*ie.IE { return nil }},
+		{"recovery-time-stamp-retyped", func(n *ie.IE) []*ie.IE {
+			return []*ie.IE{n, ie.NewCause(ie.CauseRequestAccepted), ie.New(250, ts.Payload)}
+		}},
+		{"node-id-retyped", func(n *ie.IE) []*ie.IE { return []*ie.IE{ie.New(250, n.Payload), ie.NewCause(ie.CauseRequestAccepted), ts} }},
+		{"rejected-bare", func(n *ie.IE) []*ie.IE { return []*ie.IE{ie.NewCause(ie.CauseRequestRejected)} }},
+		{"rejected-with-node-id", func(n *ie.IE) []*ie.IE { return []*ie.IE{n, ie.NewCause(ie.CauseRequestRejected)} }},
+		{"empty-recovery-time-stamp", func(n *ie.IE) []*ie.IE { return []*ie.IE{n, ie.NewCause(ie.CauseRequestAccepted), ie.New(ie.RecoveryTimeStamp, nil)} }},
+		{"empty-node-id", func(n *ie.IE) []*ie.IE { return []*ie.IE{ie.New(ie.NodeID, nil), ie.NewCause(ie.CauseRequestAccepted), ts} }},
+		{"empty-cause", func(n *ie.IE) []*ie.IE { return []*ie.IE{n, ie.New(ie.Cause, nil), ts} }},
+	}
+	for _, v := range vs {
+		rt := 80 * time.Millisecond
+		w, err := newWorld(c, sysh.Opts{RespTimeout: rt.String(), MaxRetries: 1, ReadTimeout: 600, Peers: []string{"127.0.1.77"}})
+		if err != nil {
+			panic(err)
+		}
+		p0, err := w.s.NewPeerAt("127.0.1.77", 8805)
+		if err != nil {
+			c.t.Note("c01/assocresp skipped: 127.0.1.77:8805 is not available: " + err.Error())
+			w.close()
+			return
+		}
+		done := make(chan int, 1)
+		go func() {
+			n := 0
+			deadline := time.Now().Add(4 * time.Second)
+			for time.Now().Before(deadline) {
+				r, ok := p0.Recv(20 * time.Millisecond)
+				if !ok {
+					if n > 0 {
+						break
+					}
+					continue
+				}
+				m, err := message.Parse(r)
+				if err != nil || m.MessageType() != message.MsgTypeAssociationSetupRequest {
+					continue
+				}
+				n++
+				_ = p0.SendRaw(sysh.Marshal(message.NewAssociationSetupResponse(m.Sequence(), v.ies(ie.NewNodeID(p0.Addr, "", ""))...)))
+				time.Sleep(150 * time.Millisecond)
+				break
+			}
+			done <- n
+		}()
+		started := w.start() // false when the agent is gone before it reports ready: the response can arrive that early
+		n := <-done
+		// another association (set up by its control plane) is served
+		ok := started && !w.s.Exited() && w.assoc(0)
+		alive := !w.s.Exited()
+		crash := ""
+		if !alive {
+			crash = strings.ReplaceAll(w.s.CrashInfo(), " ", "_")
+		}
+		c.t.Case("c01/assocresp/"+v.name, n > 0, "assocresp %s %d => %d %d %s", v.name, n, b01(alive), b01(ok), crash)
+		p0.Close()
+		w.close()
+	}
 }
